@@ -79,8 +79,13 @@ RULES = {
     "Function.__init__ stores domain, name and overload exactly as they are passed (the parameter itself, no call on it); with "
     "`self._domain = _normalize_domain(domain)` a function declared in `ai.onnx` is keyed as `''`, the entries `ai.onnx::F/x` match "
     "nothing and type, shape, doc string and metadata of the function's values are dropped on proto -> IR -> proto",
+    "R20": "an argument goes to the parameter it is named after (shared rule S21): in the package, a positional argument that is a plain "
+    "name equal to the name of a parameter of the (resolved) callee is never passed in the position of a *different* parameter - "
+    "`Attr(name, type, value, doc_string)` puts the doc string into `ref_attr_name` (the fourth positional parameter; `doc_string` is "
+    "keyword-only), so a TENSORS attribute with a doc string becomes a reference attribute: its tensors and its doc string are gone "
+    "after proto -> IR -> proto",
 }
-FLOORS = {"R1": 100, "R2": 40, "R3": 30, "R4": 1, "R5": 40, "R6": 20, "R7": 6, "R8": 3, "R9": 3, "R10": 10, "R11": 1, "R12": 12, "R13": 2, "R14": 10, "R15": 4, "R16": 20, "R17": 4, "R18": 1, "R19": 3}
+FLOORS = {"R1": 100, "R2": 40, "R3": 30, "R4": 1, "R5": 40, "R6": 20, "R7": 6, "R8": 3, "R9": 3, "R10": 10, "R11": 1, "R12": 12, "R13": 2, "R14": 10, "R15": 4, "R16": 20, "R17": 4, "R18": 1, "R19": 3, "R20": 1}
 EXPLANATION = (
     "Types every proto expression of serde.py through parameter annotations and the parsed onnx-ml.proto schema, "
     "collects per message the fields the deserializer reads and the serializer writes (attribute access, HasField, "
@@ -1325,9 +1330,24 @@ def rule_r19(ctx):
     ctx.require(n >= 3, f"only {n} identifier stores found in Function.__init__")
 
 
+def rule_r20(ctx):
+    from ..shared import misplaced_named_arguments
+
+    hits, n = misplaced_named_arguments(ctx.repo, ctx.typer, lambda name: True)
+    for f, c, arg, param, g in hits:
+        ctx.check("R20", f"S21 {f.local}: `{arg}` is passed to the parameter of that name", False, f, c,
+                  f"`{norm(c)[:80]}` passes `{arg}` in the position of the parameter `{param}` of {g.local}, which has a parameter called `{arg}` of its own: the value ends up in the "
+                  "wrong field (a doc string stored as the name of a referenced attribute turns the attribute into a reference attribute: its value and doc string are not "
+                  "serialized, and a dangling ref_attr_name is)",
+                  how="positional arguments that are plain names × parameter names of the resolved callee", construct=f"{arg} passed as {param} of {g.local}")
+    ctx.ob("R20", f"{n} positional arguments of resolved package calls examined", True, how="S21")
+    ctx.require(n >= 500, f"only {n} positional arguments of resolved calls found")
+
+
 def run(ctx):
     from . import c17
 
+    rule_r20(ctx)
     rule_r19(ctx)
 
     c17.rule_r9(ctx, rule="R18", consequence="the declared shape (unknown and named dimensions, denotations) or type of the entry is replaced by the tensor's, "
